@@ -34,9 +34,9 @@ func init() {
 		{Pkg: fw, Func: "VerifyPlugin.GetMetadata", Oracle: true},
 		{Pkg: fw, Type: "Plugin", Opaque: true},
 		{Pkg: ".../plugin", Type: "Manager", Opaque: true},
-		{Pkg: ".../plugin", Func: "Manager.Get", Oracle: true},
+		{Pkg: ".../plugin", Func: "Manager.Get", Oracle: true, AnyReceiver: true},
 		// the plugin request and the nil answer (the plugin itself is the oracle VerifySignature)
-		{Pkg: fw, Func: "VerifyPlugin.VerifySignature", Oracle: true},
+		{Pkg: fw, Func: "VerifyPlugin.VerifySignature", Oracle: true, AnyReceiver: true},
 		{Pkg: v, Func: "executePlugin"},
 		{Pkg: v, Func: "verifyIntegrity", Oracle: true},
 		{Pkg: v, Func: "loadX509TrustStores", Oracle: true},
